@@ -62,10 +62,11 @@ import (
 )
 
 type Item struct {
-	Name string   `json:"name"`
-	M    []string `json:"m"`
-	H    []string `json:"h"`
-	P    []string `json:"p"`
+	Name string      `json:"name"`
+	M    []string    `json:"m"`
+	H    []string    `json:"h"`
+	P    []string    `json:"p"`
+	Hdr  [][2]string `json:"hdr,omitempty"` // flow items: header constraints of the filter (key, value)
 }
 
 type Req struct {
@@ -273,6 +274,12 @@ func flowYAML(it Item) string {
 			q = append(q, fmt.Sprintf("%q", m))
 		}
 		fmt.Fprintf(&b, "  method: [%s]\n", strings.Join(q, ", "))
+	}
+	if len(it.Hdr) > 0 {
+		b.WriteString("  headers:\n")
+		for _, kv := range it.Hdr {
+			fmt.Fprintf(&b, "    - key: %q\n      value: %q\n", kv[0], kv[1])
+		}
 	}
 	b.WriteString(`processors:
   procReq:
